@@ -203,6 +203,11 @@ EndChecks(tr, i) ==
                             LET r == e.tasktable[j]  t == <<r.o, r.k>>
                             IN t \in DOMAIN X.tasks => (r.ast = X.tasks[t].ast /\ r.aft = X.tasks[t].aft),
                          "L1", i, "C03.table")
+               (* ... and what the table says about a task's duration is the time it occupied its machine *)
+               /\ Report(\A j \in 1..Len(e.tasktable) :
+                            LET r == e.tasktable[j]  t == <<r.o, r.k>>
+                            IN (t \in DOMAIN X.tasks /\ X.tasks[t].aft # NoneT) => r.aft - r.ast = X.tasks[t].aft - X.tasks[t].ast,
+                         "L1", i, "C06.table")
                /\ Report(End_C07(X), "L1", i, "C07.end")
                /\ Report(End_C13_complete(e.log), "L1", i, "C13.complete")
                /\ IF End_C13_complete(e.log) THEN Report(End_C13_order(e.log), "L1", i, "C13.order") ELSE TRUE
